@@ -145,6 +145,28 @@ pub fn run(tape: &[u8], ctx: &mut Ctx) {
 	}
 	// semantic mutation
 	let m = mutate(&mut t, &ast0);
+	// history: fingerprint, edit through nodes_mut(), fingerprint again / freeze. The
+	// fingerprint must follow the edit (nothing stale), also on a clone taken before.
+	if validate(&m).is_ok() && t.chance(128) {
+		let mut sm = if t.bool() { SchemaMut::from_nodes(to_nodes(&ast0)) } else { match spell_plain(&ast0).parse::<SchemaMut>() { Ok(s) => s, Err(_) => SchemaMut::from_nodes(to_nodes(&ast0)) } };
+		let before = sm.canonical_form_rabin_fingerprint().ok();
+		let snapshot = sm.clone();
+		*sm.nodes_mut() = to_nodes(&m);
+		let mwant = crc64_avro(pcf(&normalize_first_occurrence(&m)).as_bytes()).to_le_bytes();
+		ctx.label("history:fingerprint-edit-fingerprint");
+		match sm.canonical_form_rabin_fingerprint() {
+			Ok(fp) if fp == mwant => {}
+			other => ctx.violation("C08/fingerprint-stale-after-edit", format!("fingerprint() = {:?} before the edit; after replacing the nodes through nodes_mut() by a graph whose reference fingerprint is {} it reports {:?}", before.map(|b| hex(&b)), hex(&mwant), other.map(|b| hex(&b)).map_err(|e| e.to_string()))),
+		}
+		match sm.freeze() {
+			Ok(s) if *s.rabin_fingerprint() == mwant => {}
+			Ok(s) => ctx.violation("C08/fingerprint-stale-after-edit", format!("frozen schema after an edit reports {} instead of {}", hex(s.rabin_fingerprint()), hex(&mwant))),
+			Err(e) => ctx.violation("C08/valid-schema-rejected", format!("edited graph: {e}")),
+		}
+		if snapshot.canonical_form_rabin_fingerprint().ok() != before {
+			ctx.violation("C08/clone-fingerprint-changed", "a clone taken before the edit changed its fingerprint".to_string());
+		}
+	}
 	let mtext = pcf(&normalize_first_occurrence(&m));
 	if validate(&m).is_ok() && mtext != text {
 		let mwant = crc64_avro(mtext.as_bytes()).to_le_bytes();
